@@ -87,7 +87,7 @@ def rnd_policy(rng, n, allow_fa=True):
 def rnd_edge(rng, eid, src_t, dst_t, src_blocking, src_out_policy, profile, item_len, congested):
     """edge type compatible with what executes on the tree (core) or anything documented (full)"""
     types = ["buffer_fifo", "buffer_fifo", "buffer_lifo", "fleet", "conv", "conv", "slotconv"]
-    if profile == "core":
+    if profile == "restricted":
         ok = []
         for t in types:
             base = t.split("_")[0]
@@ -109,7 +109,9 @@ def rnd_edge(rng, eid, src_t, dst_t, src_blocking, src_out_policy, profile, item
         e.update(capacity=cap, delay=rng.choice((0.5, 1, 2)), transit=rng.choice((0, 0.25, 0.5, 1)))
     elif t == "conv":
         n = max(2, cap)
-        e.update(L=item_len * n, speed=rng.choice((1, 2, 0.5)), item_length=item_len, acc=rng.choice((0, 1)))
+        if (item_len * n) != int(item_len * n):
+            n += 1          # integer belt length that is a multiple of the item length (else geometry class 'ragged', D14)
+        e.update(L=int(item_len * n), speed=rng.choice((1, 2, 0.5, 0.7)), item_length=item_len, acc=rng.choice((0, 1)))
     else:
         e.update(capacity=max(2, cap), delay=rng.choice((0.5, 1, 0.25)), acc=rng.choice((0, 1)))
     return e
@@ -246,7 +248,7 @@ def gen_spec(seed, profile="core", variant=None, templates=None):
             sa, sb = byid[a], byid[b]
             e = rnd_edge(rng, f"E{k_id}", sa["type"], sb["type"], sa.get("blocking", True), sa.get("out_sel"),
                          profile, item_len, congested)
-            if profile == "core" and sb["type"] == "sink" and e["type"] in ("conv", "slotconv"):
+            if profile == "restricted" and sb["type"] == "sink" and e["type"] in ("conv", "slotconv"):
                 e = {"id": e["id"], "type": "buffer_fifo", "capacity": rng.choice((1, 2, 3)),
                      "delay": rnd_delay_desc(rng, (0, 0.5)), "mode": "FIFO"}
             e["src"], e["dst"] = a, b
